@@ -15,7 +15,7 @@ ID = "C16"
 RULE = (
     "grids (boundary edges, closed, n_face<>n_node, antimeridian, pole) under every single index deviation (node relabelling, face order, "
     "start corner) x provenance {derived centres, face centres supplied by the source (displaced from the corner mean), distances supplied by "
-    "the source, an MPAS source (harness-written) shipping dvEdge/dcEdge, its own edge order and cell centres} x data {every unit impulse, identity, generic, ones(constant), int} on faces and on nodes x leading dims {(), (2), (2,3)} x "
+    "the source, an MPAS source (harness-written) shipping dvEdge/dcEdge, its own edge order and cell centres, the same MPAS source without dvEdge/dcEdge (distances derived from positions in metres)} x data {every unit impulse, identity, generic, ones(constant), int} on faces and on nodes x leading dims {(), (2), (2,3)} x "
     "normalize {False, True}. non-trivial = grid with both interior and boundary edges or closed grid with >= 6 faces; distinct = (mesh, deviation, provenance)"
 )
 ASSUMPTIONS = [
@@ -25,8 +25,8 @@ ASSUMPTIONS = [
     "normalised gradient: every leading-index slice has unit L2 norm (slices with identically zero gradient are not generated)",
 ]
 BOUNDS = {
-    "quick": "8 meshes, deviations <= 1 (relabel cap 12 per mesh), 3 provenance cases",
-    "thorough": "12 meshes, all single deviations, 3 provenance cases",
+    "quick": "8 meshes, deviations <= 1 (relabel cap 12 per mesh; 4 for MPAS-read grids), 5 provenance cases",
+    "thorough": "12 meshes, all single deviations, 5 provenance cases",
 }
 QUICK = ["mixedpatch", "cube", "tetra", "icosa", "pyr5", "amstrip", "polefan", "isolated"]
 THOROUGH = QUICK + ["polecap", "cs2", "prism", "cubesplit"]
@@ -37,8 +37,8 @@ TOL = 1e-9
 def cases(tier):
     out = []
     for name in QUICK if tier == "quick" else THOROUGH:
-        for prov in ("derived", "centres", "distances", "mpas"):
-            out.append({"mesh": name, "prov": prov, "cap": (12 if prov != "mpas" else 4) if tier == "quick" else None})
+        for prov in ("derived", "centres", "distances", "mpas", "mpas-nodist"):
+            out.append({"mesh": name, "prov": prov, "cap": (12 if not prov.startswith("mpas") else 4) if tier == "quick" else None})
     return out
 
 
@@ -47,7 +47,7 @@ def selftest_case(tier):
 
 
 def warmup(tier):
-    for p in ("derived", "centres", "distances", "mpas"):
+    for p in ("derived", "centres", "distances", "mpas", "mpas-nodist"):
         run_case({"mesh": "single3", "prov": p, "cap": 2})
         run_case({"mesh": "isolated", "prov": p, "cap": 2})
 
@@ -80,6 +80,15 @@ def _mk(m, prov):
         ds, exp = D.mpas(m, optional="all")
         sup["edge_node_distances"] = np.asarray(ds["dvEdge"].values, dtype=float).copy()
         sup["edge_face_distances"] = np.asarray(ds["dcEdge"].values, dtype=float).copy()
+        return ux.open_grid(ds), sup
+    if prov == "mpas-nodist":
+        # MPAS source (coordinates in metres, its own edge order and cell centres) that does NOT ship dvEdge / dcEdge:
+        # the distances are derived, from positions that are not on the unit sphere
+        from vf.alpha import dialects as D
+
+        ds, exp = D.mpas(m, optional="all")
+        ds = ds.drop_vars(["dvEdge", "dcEdge"])
+        sup["face_lon"], sup["face_lat"] = sph.xyz2ll(np.asarray(exp["face_centres"]))
         return ux.open_grid(ds), sup
     if prov == "distances":
         g0 = build.grid(m)
@@ -150,7 +159,7 @@ def run_case(case):
             if dn.shape != (n_edge,) or not np.all(np.abs(dn - ref_dn) <= TOL):
                 i = int(np.argmax(np.abs(dn - ref_dn))) if dn.shape == ref_dn.shape else -1
                 bad("edge_node_distances", "c16:edge_node_distances:value", "edge %d (nodes %s): got %r, great-circle distance %r" % (i, en[i].tolist(), dn[i] if i >= 0 else dn.shape, ref_dn[i]))
-            if prov == "centres":
+            if prov in ("centres", "mpas-nodist"):
                 C = sph.ll2xyz(sup["face_lon"], sup["face_lat"])
             else:
                 gf = build.grid(m)
